@@ -141,7 +141,7 @@ Section Loop.
     revert s. induction reqs as [| r rest IH]; intro s; cbn; [exact I |].
     destruct (get_unit (units s) (ur_target r)); [| exact I].
     destruct (negb (uchar u)); [exact I |].
-    destruct (PrimFloat.eqb _ 1); apply IH.
+    destruct (can_ult u); apply IH.
   Qed.
 
   Lemma ult_check_not_stop s : match ult_check s with Stop _ => False | OutOfFuel => False | _ => True end.
@@ -375,8 +375,8 @@ Definition demo_bad : runspec :=
      [En "dummy" 50 1000 18 100 "NONE" 1 100 "PHYSICAL" [] 0 0] 3 "" 1.
 
 Definition demo_cfg : config :=
-  mkCfg [mkUD 0 true 100 1000 100 0 1 1 TEnemies TEnemies TEnemies [];
-         mkUD 0 false 100 1000 100 0 0 0 TEnemies TEnemies TEnemies []]
+  mkCfg [mkUD 0 true 100 1000 100 0 1 1 TEnemies TEnemies TEnemies [] [] [];
+         mkUD 0 false 100 1000 100 0 0 0 TEnemies TEnemies TEnemies [] [] []]
         [] [] [] [] [] [] [] [] [] [] [] 2 10.
 
 Lemma demo_nonvacuous :
